@@ -61,6 +61,15 @@ SIMDEP == [Bp("SIMDEP", C1,
               Sd("C", "DEP", "DepositMarket") >>, {2, 3, 7, 8})
         EXCEPT !.freeq = {2, 8}, !.exo = << Exo(1, "DEM_GOOD"), Exo(8, "r") >>]
 
+\* a fund (the user's bare Sector) whose deposit holding is declared as a placeholder and then given as an exogenous path,
+\* and whose money holding is left to the MoneyMarket's default; MON, DEP and the fund are declared in every order
+FUNDDEP == [Bp("FUNDDEP", C1,
+           << Sd("C", "GOV", "ConsolidatedGovernment"), [Sd("C", "HH", "Household") EXCEPT !.aw = << "DEP" >>],
+              Sd("C", "BUS", "FixedMarginBusiness"), Sd("C", "TF", "TaxFlow"),
+              Sd("C", "LAB", "Market"), Sd("C", "GOOD", "Market"), Sd("C", "MON", "MoneyMarket"),
+              Sd("C", "DEP", "DepositMarket"), [Sd("C", "FUND", "BareSector") EXCEPT !.extra = << "DEM_DEP" >>] >>, {7, 8, 9})
+        EXCEPT !.exo = << Exo(1, "DEM_GOOD"), Exo(8, "r"), Exo(9, "DEM_DEP") >>]
+
 \* ---- treasury + central bank (model PC) -----------------------------------------------
 PC == [Bp("PC", C1,
            << Sd("C", "TRE", "Treasury"), [Sd("C", "CB", "CentralBank") EXCEPT !.tre = 1],
@@ -342,6 +351,6 @@ TWOCAPS == [Bp("TWOCAPS", C1,
               Sd("C", "TF", "TaxFlow"), Sd("C", "LAB", "Market"), Sd("C", "GOOD", "Market") >>, {3, 4, 5, 8})
         EXCEPT !.freeq = {4, 5}, !.exo = << Exo(1, "DEM_GOOD") >>, !.wellformed = FALSE]
 
-AllBlueprints == {SIMXG, CASECODES, SIMTRE, IMPORT2, ROWAID, TAXOWN, GOLDCBIMP, SIMINF, SELFBUY, TAXBUS, TWOCAPS, RINGFAN, SIMPLAIN, SIMBOOK, SIMEX1BOOK, PCBOOK, REGBOOK, REG2BOOK, MULTIX, TRIREG, TWOBUSX, RING3, REG2, GOLDCB, TWOBUS, TWOGIFTS, SIMBOND, IMPORTRES, NOEXT3, SIMX, SIMR, SIMEXR, JOIN2, JOIN2X, GOLD2, GOLDNOEXT, SIM, SIMEX, SIMCAP, SIMMARGIN, SIMMON, SIMDEP, PC, MULTI, FED, GIFT, GIFT2, IMPORT, NOEXT1, NOEXT2, NOSUP, TWOSUP}
+AllBlueprints == {FUNDDEP, SIMXG, CASECODES, SIMTRE, IMPORT2, ROWAID, TAXOWN, GOLDCBIMP, SIMINF, SELFBUY, TAXBUS, TWOCAPS, RINGFAN, SIMPLAIN, SIMBOOK, SIMEX1BOOK, PCBOOK, REGBOOK, REG2BOOK, MULTIX, TRIREG, TWOBUSX, RING3, REG2, GOLDCB, TWOBUS, TWOGIFTS, SIMBOND, IMPORTRES, NOEXT3, SIMX, SIMR, SIMEXR, JOIN2, JOIN2X, GOLD2, GOLDNOEXT, SIM, SIMEX, SIMCAP, SIMMARGIN, SIMMON, SIMDEP, PC, MULTI, FED, GIFT, GIFT2, IMPORT, NOEXT1, NOEXT2, NOSUP, TWOSUP}
 QuickBlueprints == { [b EXCEPT !.free = b.freeq] : b \in AllBlueprints }
 =============================================================================
